@@ -78,6 +78,183 @@ def gen_ops(tier, rng):
     return ops
 
 
+def go_lit(bs):
+    return '"' + "".join("\\x%02x" % b for b in bs) + '"'
+
+
+PROG_TMPL = r"""package main
+
+var strs = []string{
+%(strs)s
+}
+
+var runes = []int32{%(runes)s}
+
+func hash(h uint32, x int) uint32 { return (h * 16777619) ^ uint32(x) }
+
+func classify(s string) int {
+	switch s {
+	case "":
+		return 1
+	case "abc", "ÿ":
+		return 2
+	case strs[1]:
+		return 3
+	}
+	return 0
+}
+
+func main() {
+	m := map[string]int{}
+	for i, s := range strs {
+		h := uint32(2166136261)
+		h = hash(h, len(s))
+		for j := 0; j < len(s); j++ {
+			h = hash(h, int(s[j]))
+		}
+		for j, r := range s {
+			h = hash(h, j)
+			h = hash(h, int(r))
+		}
+		rs := []rune(s)
+		h = hash(h, len(rs))
+		for _, r := range rs {
+			h = hash(h, int(r))
+		}
+		s2 := string(rs)
+		h = hash(h, len(s2))
+		for j := 0; j < len(s2); j++ {
+			h = hash(h, int(s2[j]))
+		}
+		bs := []byte(s)
+		if string(bs) != s {
+			h = hash(h, 99999)
+		}
+		for lo := 0; lo <= len(s); lo++ {
+			for hi := lo; hi <= len(s); hi++ {
+				t := s[lo:hi]
+				h = hash(h, len(t))
+				if len(t) > 0 {
+					h = hash(h, int(t[len(t)-1]))
+				}
+				for _, r := range t {
+					h = hash(h, int(r))
+				}
+			}
+		}
+		for _, t := range strs {
+			c := 0
+			if s < t {
+				c = 1
+			} else if s == t {
+				c = 2
+			}
+			if s >= t {
+				c += 4
+			}
+			h = hash(h, c)
+		}
+		u := s + strs[(i+1)%%len(strs)] + ""
+		h = hash(h, len(u))
+		h = hash(h, int(u[len(u)-1]))
+		m[s]++
+		h = hash(h, m[s])
+		buf := make([]byte, 3)
+		n := copy(buf, s)
+		h = hash(h, n)
+		h = hash(h, int(buf[0])+int(buf[2]))
+		ab := append([]byte("x"), s...)
+		h = hash(h, len(ab))
+		h = hash(h, int(ab[len(ab)-1]))
+		h = hash(h, classify(s))
+		println(i, h)
+	}
+	println(len(m))
+	for _, r := range runes {
+		s := string(rune(r))
+		h := uint32(len(s))
+		for j := 0; j < len(s); j++ {
+			h = hash(h, int(s[j]))
+		}
+		println(r, h)
+	}
+	// slice bounds panics
+	for _, s := range strs[:8] {
+		for _, ix := range [][2]int{{0, len(s) + 1}, {len(s) + 1, len(s) + 1}, {2, 1}, {-1, 0}} {
+			func() {
+				defer func() {
+					if recover() != nil {
+						println("slice-panic")
+					}
+				}()
+				lo, hi := ix[0], ix[1]
+				println(len(s[lo:hi]))
+			}()
+		}
+	}
+}
+"""
+
+INDEX_PROBE = r"""package main
+
+func main() {
+	s := "abc"
+	for _, i := range []int{0, 2, 3, 7, -1} {
+		func() {
+			defer func() {
+				if recover() != nil {
+					println(i, "index-panic")
+				}
+			}()
+			println(i, s[i])
+		}()
+	}
+}
+"""
+
+
+def program_tie(chk, tier):
+    """Compiled table-driven string programs: GopherJS under Node (plain and minified) vs native Go."""
+    from . import progs
+    jobs = []
+    nprog = 12 if tier == "thorough" else 3
+    for k in range(nprog):
+        strs = [[], [0x61, 0x62, 0x63], [0xFF]]
+        for _ in range(60):
+            strs.append(rand_string(chk.rng, chk.rng.choice([1, 2, 3, 4, 6, 9])))
+        for n in (1, 2, 3):
+            for _ in range(12):
+                strs.append([chk.rng.choice(ALPHABET) for _ in range(n)])
+        runes = sorted({b + d for b in RUNE_BOUNDS for d in (-1, 0, 1) if -2 ** 31 <= b + d < 2 ** 31} |
+                       {chk.rng.randrange(0, 0x110000) for _ in range(30)})
+        src = PROG_TMPL % {"strs": "\n".join("\t" + go_lit(x) + "," for x in strs), "runes": ", ".join(map(str, runes))}
+        jobs.append({"id": "str%d" % k, "files": {"main.go": src}, "variants": ["plain", "minify"], "native": True, "timeout": 60})
+    jobs.append({"id": "index", "files": {"main.go": INDEX_PROBE}, "variants": ["plain"], "native": True})
+    res = progs.run_jobs(jobs, par=4)
+    for j, r in zip(jobs, res):
+        nat = progs.observe_native(r["runs"]["native"])
+        if nat[1].startswith("compile-error"):
+            raise RuntimeError("generated program does not build natively: " + nat[1])
+        for v in j["variants"]:
+            obs = progs.observe_js(r["runs"][v])
+            ncases = max(1, len(nat[0]))
+            for _ in range(ncases):
+                chk.evaluations += 1
+            chk.distinct.add(("prog", j["id"], v, chk.seed).__repr__().encode()[:16])
+            chk.count("program:%s:%s" % (v, "index" if j["id"] == "index" else "table"))
+            if obs != nat:
+                # first differing line
+                d = next((i for i, (a, b) in enumerate(zip(obs[0], nat[0])) if a != b), min(len(obs[0]), len(nat[0])))
+                sig = None
+                if j["id"] == "index" and obs[1] == nat[1]:
+                    gl = [l for l in obs[0] if l not in nat[0]]
+                    if all(not l.endswith("index-panic") for l in gl):
+                        sig = "C14 string-index-out-of-range no-panic"
+                chk.add_mismatch("program:" + v, json.dumps({"id": j["id"], "line": d, "source": j["files"]["main.go"][:3000]}),
+                                 impl=json.dumps([obs[0][d:d + 3], obs[1]]), spec=json.dumps([nat[0][d:d + 3], nat[1]]), signature=sig)
+    chk.extra["programs"] = len(jobs)
+
+
 def kind(op, ans):
     p = op.split()
     k = p[1]
@@ -106,6 +283,28 @@ def run(tier, seed):
     impl = C.run_node(ops)
     model = C.run_driver("C14", ops)
     chk.compare("prelude-utf8", ops, impl, model, kind=kind)
+    # --- []byte <-> string conversions incl. long slices with offsets (the 10000-byte chunking of $bytesToString) ---
+    bops, bspec = [], []
+    shapes = [(0, 0, 0), (5, 0, 5), (5, 2, 3), (5, 5, 0)]
+    for total in (9999, 10000, 10001, 20000, 25003, 30000):
+        for off in (0, 1, 3, 4999, 9999, 10000, 10001):
+            for ln in (0, 1, 9999, 10000, 10001, total - off):
+                if off + ln <= total and ln >= 0:
+                    shapes.append((total, off, ln))
+    for _ in range(40 if tier == "thorough" else 10):
+        total = chk.rng.randrange(1, 45000)
+        off = chk.rng.randrange(0, total)
+        shapes.append((total, off, chk.rng.randrange(0, total - off + 1)))
+    for (total, off, ln) in shapes:
+        arr = bytes(chk.rng.randrange(256) for _ in range(min(total, 64))) * (total // 64 + 1)
+        arr = arr[:total]
+        bops.append("utf8 bytes2str %s %d %d" % (C.hexs(arr), off, ln))
+        bspec.append("utf8 sbytes2str %s %d %d" % (C.hexs(arr), off, ln))
+    for _ in range(300):
+        bops.append("utf8 str2bytes %s" % C.hexs(rand_string(chk.rng, 12)))
+        bspec.append(bops[-1])
+    chk.compare("bytes-string", bops, C.run_node(bops), C.run_driver("C14", bops), spec=C.run_driver("C14", bspec),
+                kind=lambda o, a: o.split()[1] + (":long" if len(o) > 20000 else ""))
     # --- string literals: real encodeString (hook) -> literal text; the engine's reading of it; vs the model ---
     C.build_gvh("gvh_c14")
     strs = [[b] for b in range(256)] + [[a, b] for a in (34, 92, 0, 10, 13, 8, 0x7F, 0x80, 0xFF, 120, 47, 42) for b in (34, 92, 120, 48, 65, 10, 0xE2, 47, 42)]
@@ -121,6 +320,7 @@ def run(tier, seed):
     # the engine's reading of the REAL literal must be the original bytes (spec) and equal the model's reading
     js_ops = ["utf8 jslit %s" % l for l in lit_impl]
     chk.compare("literal-value", js_ops, C.run_node(js_ops), C.run_driver("C14", js_ops), spec=hexs_, kind=lambda o, a: "jslit")
+    program_tie(chk, tier)
     chk.extra["exhaustive"] = False
     chk.extra["exhaustive_subspace"] = "all byte strings of length <= %d over %d boundary bytes x all positions" % (
         4 if tier == "thorough" else 3, len(ALPHABET))
